@@ -186,10 +186,20 @@ def _ownership(chk: Check, lt: ClassInfo) -> None:
     for f in repo.all_functions():
         if f.cls is lt:
             continue
+        # a private helper class of the wrapper's own module that only the wrapper instantiates (an
+        # iterable / view object handed to the tree constructor) acts on the wrapper's behalf: what
+        # it does is not followed — undecided, not a violation
+        helper_of_lt = False
+        if f.cls is not None and f.cls.module is lt.module and f.cls.name.startswith("_"):
+            users = [g for g in repo.all_functions() if g.cls is not f.cls and any(
+                isinstance(c, ast.Call) and (dotted(c.func) or ("",))[-1] == f.cls.name for c in walk_no_nested(g.node))]
+            helper_of_lt = bool(users) and all(g.cls is lt for g in users)
         for n in walk_no_nested(f.node):
             if isinstance(n, ast.Attribute) and n.attr in ("_interval_events", "_value_collection", "_make_interval"):
+                reads_only = isinstance(n.ctx, ast.Load) and n.attr != "_interval_events"
                 chk.ob("R12.2", "%s:touches(%s)" % (f.qualname, n.attr), False, f.loc(n),
-                       "%s reaches into LazyIntervalTree.%s" % (f.qualname, n.attr), 1)
+                       "%s reaches into LazyIntervalTree.%s" % (f.qualname, n.attr), 1,
+                       undecided=helper_of_lt and reads_only)
     # the tree get() hands out is the live index: whoever receives it may only read it
     READ = {"overlap", "overlaps", "at", "envelop", "begin", "end", "span", "items", "is_empty", "copy",
             "__len__", "__iter__", "__contains__", "__getitem__", "all_intervals", "boundary_table"}
@@ -477,7 +487,12 @@ def _get(chk: Check, lt: ClassInfo) -> None:
     chk.ob("R12.4", "LazyIntervalTree.get:clears-after-replay", not early, f.loc(),
            "the queue is cleared before it is replayed", 2, undecided=aliased)
     # the rebuild enumerates the value collection through the builder, skipping None
-    gen = f.nested().get("intervals")
+    # (the nested generator function whose call is the argument the tree is built from)
+    gen_names = {c.args[0].func.id for c in walk_no_nested(f.node)
+                 if isinstance(c, ast.Call) and (dotted(c.func) or ("",))[-1] == "IntervalTree" and len(c.args) == 1
+                 and isinstance(c.args[0], ast.Call) and isinstance(c.args[0].func, ast.Name) and not c.args[0].args
+                 and c.args[0].func.id in f.nested()}
+    gen = f.nested().get(sorted(gen_names)[0]) if len(gen_names) == 1 else None
     src = gen.node if gen is not None else f.node
     uses_vals = any(isinstance(n, ast.For) and attr_path(n.iter) == (me, "_value_collection")
                     for n in ast.walk(src))
@@ -541,9 +556,16 @@ def _get(chk: Check, lt: ClassInfo) -> None:
                 shape_known = True
                 uses_vals = uses_builder = True
                 yields_ok = present_test
+    # the tree is built from an object of a private helper class of this module (an iterable that
+    # produces the intervals): its __iter__ is not followed here
+    helper_src = any(
+        isinstance(c, ast.Call) and (dotted(c.func) or ("",))[-1] == "IntervalTree" and len(c.args) == 1
+        and isinstance(c.args[0], ast.Call) and isinstance(c.args[0].func, ast.Name)
+        and c.args[0].func.id.startswith("_") and chk.repo.cls_opt(c.args[0].func.id) is not None
+        for c in walk_no_nested(f.node))
     chk.ob("R12.4", "LazyIntervalTree.get:rebuild-from-values", uses_vals and uses_builder and yields_ok, f.loc(),
            "a rebuild must index every value of self._value_collection through self._make_interval, "
-           "yielding exactly the intervals that are not None", 3, undecided=aliased)
+           "yielding exactly the intervals that are not None", 3, undecided=aliased or helper_src)
     init0 = lt.methods.get("__init__")
     if init0 is not None:
         ps0 = init0.param_names()
